@@ -1,6 +1,6 @@
 #!/bin/bash
 # usage: selftest/try.sh <patch> <PROP> [tier]   -- apply a patch to /repo, run the check, undo the patch
-P="$1"; ID="$2"; TIER="${3:-quick}"
+P="$(realpath "$1")"; ID="$2"; TIER="${3:-quick}"
 git -C /repo apply "$P" || { echo "patch does not apply"; exit 3; }
 /verif/check "$ID" --tier "$TIER" > /tmp/selftest.out 2>/tmp/selftest.err; RC=$?
 git -C /repo checkout -- . 
